@@ -86,6 +86,10 @@ pub uninterp spec fn s_named_stdint(t: &Type, ctx: &BindgenContext) -> bool;
 // ---- CompInfo: the getters CompInfo::trace reads (plain field getters in comp.rs)
 // MethodKind, Method and their getters are extracted from comp.rs (real text) in the unit
 pub struct Base { pub ty: TypeId, pub is_pub: bool }
+impl Base {
+    pub uninterp spec fn s_virtual(&self) -> bool;
+    #[verifier::external_body] pub fn is_virtual(&self) -> (r: bool) ensures r == self.s_virtual() { unimplemented!() }
+}
 // Field payloads: only the members Field::trace / CompFields::trace read (stand-ins; `ty` getters uninterpreted)
 pub struct FieldData { pub ty: TypeId }
 #[verifier::external_body] pub struct RawField { _p: core::marker::PhantomData<()> }
